@@ -9,7 +9,8 @@ construction), performs
 
 and checks: rv equals e exactly (shape, dtype, values, NaN == NaN); ``dx.chunks`` is what it was before the
 assignment; lazy shape/dtype agree with the computed value and every block of the new graph has the declared
-chunk shape; the NumPy array handed to from_array was not mutated.
+chunk shape; the NumPy array handed to from_array was not mutated, and a second handle on the same from_array
+graph (never assigned to) still computes to the original data afterwards (``source-data-mutated``).
 
 Index kinds (what Array.__setitem__ documents, docs/source/array-assignment.rst): ints (incl. negative, NumPy
 ints), slices with any step sign, Ellipsis, ONE 1-d integer list / NumPy array / dask array (unsorted, negative,
@@ -273,7 +274,8 @@ def evaluate(shape, chunks, dtype, enc, bare, vmode, vkind, vseed, threads=False
             return Outcome("reject", msg="numpy: %s: %s" % (type(ex).__name__, ex))
         xin = x.copy()
         try:
-            dx = da.from_array(xin, chunks=chunks)
+            base = da.from_array(xin, chunks=chunks)
+            dx = base.copy()  # a second handle on the same graph; ``base`` itself is never assigned to
             before = dx.chunks
             dx[didx] = dv
             rv = dx.compute(scheduler="threads" if threads else "sync")
@@ -301,6 +303,15 @@ def evaluate(shape, chunks, dtype, enc, bare, vmode, vkind, vseed, threads=False
             out.status, out.symptom, out.msg = "mismatch", "input-mutated", "the NumPy array given to from_array was modified"
             return out
         try:
+            bv = base.compute(scheduler="sync")
+        except Exception as ex:  # noqa: BLE001
+            return Outcome("exc", "recompute-source:" + exc_label(ex), "%s: %s" % (type(ex).__name__, ex), ex)
+        if compare_arrays(bv, x, exact=True) is not None:
+            out.status, out.symptom, out.msg = ("mismatch", "source-data-mutated",
+                                                "computing the assignment modified the data held by the source dask array "
+                                                "(another handle on the same from_array graph no longer computes to the input)")
+            return out
+        try:
             m = IX.blockwise_mismatch(dx, rv)
         except NotImplementedError as ex:
             return Outcome("unsupported", msg=str(ex))
@@ -314,7 +325,7 @@ def evaluate(shape, chunks, dtype, enc, bare, vmode, vkind, vseed, threads=False
 
 
 MISMATCH_SYMPTOMS = ("shape", "dtype", "values", "lazy-shape", "lazy-dtype", "lazy-chunks", "block-shape", "block-placement",
-                     "chunks-changed", "input-mutated")
+                     "chunks-changed", "input-mutated", "source-data-mutated")
 
 
 def run_case(case, ctx):
